@@ -113,24 +113,32 @@ where
         connection: &mut Connection,
         session: &mut Session,
         msg: ContextMessage,
-    ) -> Result<(), MqttError> {
+    ) -> Result<bool, MqttError> {
         match msg {
             ContextMessage::FireAndForget(msg) => {
                 if let Err(err) = Self::validate_packet_size(connection, msg.packet.as_ref()) {
                     // The caller may have dropped the future: nobody is waiting for the result then.
                     let _ = msg.response_channel.send(Err(err));
-                    return Ok(());
+                    return Ok(false);
                 }
+
+                // DISCONNECT is the last packet of the connection.
+                let is_disconnect =
+                    msg.packet.first().map(|hdr| hdr >> 4) == Some(DisconnectTx::PACKET_ID);
 
                 tx.write(msg.packet.freeze().as_ref()).await?;
                 // The caller may have dropped the future: nobody is waiting for the result then.
                 let _ = msg.response_channel.send(Ok(()));
+
+                if is_disconnect {
+                    return Ok(true);
+                }
             }
             ContextMessage::AwaitAck(mut msg) => {
                 if let Err(err) = Self::validate_packet_size(connection, msg.packet.as_ref()) {
                     // The caller may have dropped the future: nobody is waiting for the result then.
                     let _ = msg.response_channel.send(Err(err));
-                    return Ok(());
+                    return Ok(false);
                 }
 
                 let packet_id = msg.packet.first().unwrap() >> 4; // Extract packet id, being the four MSB bits
@@ -139,7 +147,7 @@ where
                     if connection.send_quota == 0 {
                         // The caller may have dropped the future: nobody is waiting for the result then.
                         let _ = msg.response_channel.send(Err(QuotaExceeded.into()));
-                        return Ok(());
+                        return Ok(false);
                     }
 
                     connection.send_quota -= 1;
@@ -176,7 +184,7 @@ where
                 if let Err(err) = Self::validate_packet_size(connection, msg.packet.as_ref()) {
                     // The caller may have dropped the future: nobody is waiting for the result then.
                     let _ = msg.response_channel.send(Err(err));
-                    return Ok(());
+                    return Ok(false);
                 }
 
                 session
@@ -190,7 +198,7 @@ where
             }
         }
 
-        Ok(())
+        Ok(false)
     }
 
     async fn ack<'a, ReasonT>(
@@ -218,7 +226,7 @@ where
         connection: &mut Connection,
         session: &mut Session,
         packet: RxPacket,
-    ) -> Result<(), MqttError> {
+    ) -> Result<bool, MqttError> {
         match packet {
             RxPacket::Publish(publish) => {
                 let qos = publish.qos;
@@ -228,7 +236,7 @@ where
                 // already, only the PUBREC is repeated.
                 if let (QoS::ExactlyOnce, Some(packet_id)) = (qos, maybe_packet_id) {
                     if session.inbound_unreleased.contains(&packet_id.get()) {
-                        return Self::ack::<PubrecReason>(tx, packet_id).await;
+                        return Self::ack::<PubrecReason>(tx, packet_id).await.map(|_| false);
                     }
 
                     session.inbound_unreleased.push_back(packet_id.get());
@@ -272,7 +280,7 @@ where
             }
             RxPacket::Disconnect(disconnect) => {
                 if disconnect.reason == DisconnectReason::Success {
-                    return Ok(()); // Graceful disconnection.
+                    return Ok(true); // Graceful disconnection.
                 }
 
                 return Err(disconnect.into());
@@ -372,7 +380,7 @@ where
             }
         }
 
-        Ok(())
+        Ok(false)
     }
 
     fn handle_connack(connection: &mut Connection, connack: &ConnackRx) {
@@ -607,11 +615,15 @@ where
             futures::select! {
                 maybe_rx_packet = pck_fut => {
                     let rx_packet = maybe_rx_packet.ok_or(SocketClosed)?;
-                    Self::handle_packet(tx, connection, session, rx_packet?).await?;
+                    if Self::handle_packet(tx, connection, session, rx_packet?).await? {
+                        return Ok(());
+                    }
                     pck_fut = rx.next().fuse();
                 },
                 maybe_msg = msg_fut => {
-                    Self::handle_message(tx, connection, session, maybe_msg.ok_or(HandleClosed)?).await?;
+                    if Self::handle_message(tx, connection, session, maybe_msg.ok_or(HandleClosed)?).await? {
+                        return Ok(());
+                    }
                     msg_fut = message_queue.next();
                 }
             }
